@@ -35,6 +35,9 @@ type SourceCfg struct {
 	// ReadErrClose: the read error kills the whole stream (acks can no longer be delivered either);
 	// default: only reads fail, the plugin still takes acknowledgments
 	ReadErrClose bool `json:"read_err_close,omitempty"`
+	// PlainPos: positions are "p-0001", "p-0002", ... without the connector's id: two sources with this option
+	// produce byte-identical positions (positions are opaque to the engine and need not be unique across sources)
+	PlainPos bool `json:"plain_pos,omitempty"`
 	// StopDelayMs: the plugin's Stop call takes this long; records released meanwhile are still handed over (a
 	// connector that finishes what it is reading before it confirms the stop) and Stop reports the last of them
 	StopDelayMs int `json:"stop_delay_ms,omitempty"`
@@ -86,6 +89,13 @@ func newSource(w *World, cfg SourceCfg) *Source {
 // Pos encodes the position of index i of source id.
 func Pos(id string, i int) opencdc.Position {
 	return opencdc.Position(fmt.Sprintf("%s-%04d", id, i))
+}
+
+func (p *Source) posID() string {
+	if p.Cfg.PlainPos {
+		return "p"
+	}
+	return p.Cfg.ID
 }
 
 // PosIdx decodes a position produced by Pos; ok is false if it is not one.
@@ -241,11 +251,11 @@ func (p *Source) emitLoop(ctx context.Context, st *srcStream, run int) {
 		idxs := make([]int, 0, k)
 		for j := 0; j < k; j++ {
 			i := p.next + 1
-			pos := Pos(p.Cfg.ID, i)
+			pos := Pos(p.posID(), i)
 			if p.Cfg.EmptyPosAt == i {
 				pos = opencdc.Position{}
 			} else if p.Cfg.DupPosAt == i && i > 1 {
-				pos = Pos(p.Cfg.ID, i-1)
+				pos = Pos(p.posID(), i-1)
 			}
 			recs = append(recs, opencdc.Record{
 				Position:  pos,
@@ -303,7 +313,7 @@ func (p *Source) onAck(req pconnector.SourceRunRequest, run int) {
 	for _, a := range req.AckPositions {
 		raws = append(raws, string(a))
 		src, i, ok := PosIdx(a)
-		if !ok || src != p.Cfg.ID {
+		if !ok || src != p.posID() {
 			i = -1
 		}
 		idxs = append(idxs, i)
